@@ -372,6 +372,10 @@ pub fn perfect_power<N>(n: N) -> Option<(N, u32)>
 where
     N: Copy + Roots + Pow<u32, Output = N>,
 {
+    // 0 and 1 are their own roots: they are not reported as perfect powers.
+    if n.is_zero() || n.is_one() {
+        return None;
+    }
     for k in [2, 3, 5, 7, 11, 13, 17, 19_u32] {
         let r = n.nth_root(k);
         if r.pow(k) == n {
